@@ -189,7 +189,7 @@ CHECKS["C19"] = ("SseWire.tla, TraceSseWire.tla",
     "Splitter=py (str.splitlines) must violate RoundTrip; every state concretised through the real build_bytes_from_sse / "
     "SendEventResponse on both interfaces and decoded by a Python parser that is itself compared with the model's Parse; trace "
     "validation by TLC of long event sequences (TraceSseWire.tla: the module's client reads the observed bytes after every chunk)",
-    "Data up to 3 (thorough 4) characters over {LF, CR, other separator, colon, space, other} x any subset of event/id/retry; "
+    "Data up to 3 characters over {LF, CR, other separator, colon, space, other} x any subset of event/id/retry (thorough also 4 characters with one-class names); "
     "sequences of 2 (3) events with a ping anywhere; 80 (thorough 600) sequences of 5-12 events with fields up to 6 characters, "
     "real pings in the pauses (ASGI, virtual time), four charsets; every code point (sampled in quick, all of Unicode in thorough) as data.",
     "Trusted: TLC; codec property: the model contributes the class structure and the client automaton, the per-character step "
